@@ -34,6 +34,9 @@ pub assume_specification<T: Clone>[ <[T]>::to_vec ](s: &[T]) -> (r: Vec<T>)
 
 pub assume_specification<T, E, U>[ Result::<T, E>::and::<U> ](a: Result<T, E>, b: Result<U, E>) -> (r: Result<U, E>)
     ensures r == (match a { Ok(_) => b, Err(e) => Err(e) });
+/// std: `a.or(b)` is `a` when `a` is Ok, else `b` (stated so that a change from `and` to `or` is decided, not lost as unsupported)
+pub assume_specification<T, E, F>[ Result::<T, E>::or::<F> ](a: Result<T, E>, b: Result<T, F>) -> (r: Result<T, F>)
+    ensures r == (match a { Ok(v) => Ok(v), Err(_) => b });
 
 } // verus!
 } // mod stdx
